@@ -88,6 +88,7 @@ DEFAULT_PROFILE = {
     'multi_import_clauses': True,
     'allow_no_imports': True,
     'reuse_names': True,          # a module may declare a node named like a node of an earlier module
+    'sequential_names': False,    # identifiers n1, N2, n3 ... by order of creation: independently drawn sets share their names
     'macro_end_substring': None,  # MACRO bodies containing END inside longer words (D25); None = unless D25 is open
 
     'plain_type_from_local_tc': True,   # D35
@@ -210,6 +211,11 @@ class _Names(object):
 
     def _fresh(self, first_upper):
         draw = self.draw
+        if self.prof['sequential_names']:
+            name = ('N' if first_upper else 'n') + ('x-' if self.n % 5 == 4 and self.prof['hyphens'] else '') + str(self.n + 1)
+            self.n += 1
+            self.used_mapped.add(name.replace('-', '_'))
+            return name
         parts = draw(_ident_tail())
         if not self.prof['hyphens']:
             parts = parts[:1]
@@ -453,6 +459,9 @@ class Builder(object):
         kind = want or draw(st.sampled_from(kinds))
         if kind == 'named':
             cands = self.visible_types(mod)
+            local = [t_ for t_ in cands if t_['module'] == mod['name']]
+            if local and draw(st.booleans()):
+                cands = local     # chains and siblings of locally declared types (fixture types outnumber them)
             t = draw(st.sampled_from(cands))
             sub = None
             info = {'kind': t['kind'], 'enum': t['enum'], 'bits': t['bits'], 'chain': t['chain'], 'inline_enum': False,
@@ -625,6 +634,21 @@ def _gen_type_decl(b, mod):
                     'constrained': info['constrained'], 'nat': info['nat'], 'fixedlen': info['fixedlen'],
                     'tc_anc': bool(parent_tc)})
     return [d]
+
+
+def _gen_type_family(b, mod):
+    """A type and two or three plain types derived from it (siblings that wait for the same declaration when the
+    parent is declared after them)."""
+    draw = b.draw
+    out = _gen_type_decl(b, mod)
+    parent = b.types[-1]
+    if parent['tc'] and not b.prof['plain_type_from_local_tc']:
+        return out
+    for i in range(draw(st.integers(2, 3))):
+        name = b.names.upper()
+        out.append({'k': 'td', 'name': name, 'syntax': {'base': ['named', parent['name'], mod['name']], 'sub': None, 'tag': None}})
+        b.types.append(dict(parent, name=name, tc=False, chain=parent['chain'] + 1, tc_anc=bool(parent['tc'] or parent.get('tc_anc'))))
+    return out
 
 
 def _gen_value(b, mod):
@@ -993,10 +1017,11 @@ def _gen_choice(b, mod):
 GENS = {
     'value': _gen_value, 'oi': _gen_oi, 'mi': _gen_mi, 'scalar': _gen_scalar, 'table': _gen_table, 'nt': _gen_nt,
     'tt': _gen_tt, 'og': _gen_og, 'ng': _gen_ng, 'mc': _gen_mc, 'ac': _gen_ac, 'type': _gen_type_decl,
+    'typefam': _gen_type_family,
     'macro': _gen_macro, 'choice': _gen_choice,
 }
-V2_KINDS = ('value', 'value', 'oi', 'scalar', 'scalar', 'table', 'nt', 'og', 'ng', 'mc', 'ac', 'type', 'type')
-V1_KINDS = ('value', 'value', 'scalar', 'scalar', 'table', 'tt', 'type')
+V2_KINDS = ('value', 'value', 'oi', 'scalar', 'scalar', 'table', 'nt', 'og', 'ng', 'mc', 'ac', 'type', 'type', 'typefam')
+V1_KINDS = ('value', 'value', 'scalar', 'scalar', 'table', 'tt', 'type', 'typefam')
 
 
 def _needs(mod, bld):
@@ -1499,7 +1524,11 @@ def layouts(draw, ntokens, comments=True, minimal=True):
     choices = list(SEPARATORS)
     for i in range(ntokens + 1):
         r = draw(st.integers(0, 11))
-        if r == 0 and comments:
+        if i == ntokens and comments and r in (2, 3, 4):
+            # the text may end inside a comment: a last line `-- ...` without a line end is legal
+            body = draw(ctext('abcdefghij XYZ-:=;{}()"\',.0123456789', max_size=20))
+            seps.append(draw(st.sampled_from((' ', '\n', '\t'))) + '--' + body)
+        elif r == 0 and comments:
             body = draw(ctext('abcdefghij XYZ-:=;{}()"\',.0123456789', max_size=20))
             nl = draw(st.sampled_from(('\n', '\r\n', '\r')))
             seps.append(draw(st.sampled_from((' ', '\n', '\t'))) + '--' + body + nl)
